@@ -3,15 +3,59 @@ import FastraceModel.Lemmas.ProvOps
 /-! Provenance: `exec` preserves `Prov`, and every report it returns satisfies `RecsOk` -/
 namespace Fastrace
 
-/-- the trace id an operation introduces: only a sampled `root` does -/
+/-- the trace id an operation introduces as *sampled*: only a sampled `root` does -/
 def opTraces : Op → List Nat
   | .root _ _ tr _ true => [tr]
   | _ => []
 
-theorem Prov.withNextCollect {T : List Nat} {s : Sys} (h : Prov T s) (n : Nat) : Prov T { s with nextCollect := n } :=
+/-- the trace id an operation introduces as *unsampled*: an unsampled `root` (`spam` creates
+    unsampled roots of trace 0) -/
+def opTracesU : Op → List Nat
+  | .root _ _ tr _ false => [tr]
+  | .spam _ => [0]
+  | _ => []
+
+/-- observations that are neither a report nor an extracted context -/
+def Obs.quiet : Obs → Bool
+  | .report (some _) => false
+  | .ctx (some _) => false
+  | _ => true
+
+/-- what an observation may say: a report carries only sampled roots' trace ids; an extracted
+    context carries a sampled root's trace id with `sampled = true` or an unsampled root's with
+    `sampled = false` -/
+def ObsOk (T U : List Nat) (o : Obs) : Prop :=
+  (∀ rs, o = .report (some rs) → RecsOk T rs) ∧
+  (∀ c, o = .ctx (some c) → (c.sampled = true → c.traceId ∈ T) ∧ (c.sampled = false → c.traceId ∈ U))
+
+theorem obsOk_of_quiet {T U : List Nat} {o : Obs} (h : o.quiet = true) : ObsOk T U o := by
+  constructor
+  · intro rs e; subst e; cases h
+  · intro c e; subst e; cases h
+
+theorem obsOk_ctxOfToken {T U : List Nat} {tok : Token} (h : TokOk T U tok) : ObsOk T U (.ctx (ctxOfToken tok)) := by
+  constructor
+  · intro rs e; cases e
+  · intro c e
+    cases tok with
+    | nil => simp [ctxOfToken] at e
+    | cons it rest =>
+      simp only [ctxOfToken, Obs.ctx.injEq, Option.some.injEq] at e
+      subst e
+      exact h it (by simp)
+
+theorem obsOk_report {T U : List Nat} {rep : Option (List Record)} (h : ∀ rs, rep = some rs → RecsOk T rs) :
+    ObsOk T U (.report rep) := by
+  constructor
+  · intro rs e
+    simp only [Obs.report.injEq] at e
+    exact h rs e
+  · intro c e; cases e
+
+theorem Prov.withNextCollect {T U : List Nat} {s : Sys} (h : Prov T U s) (n : Nat) : Prov T U { s with nextCollect := n } :=
   ⟨h.spans, h.adapters, h.threads, h.rxs, h.cyc, h.coll⟩
 
-theorem tokOk_tokenOfVar {T : List Nat} {s : Sys} (h : Prov T s) (p : String) : TokOk T (s.tokenOfVar p) := by
+theorem tokOk_tokenOfVar {T U : List Nat} {s : Sys} (h : Prov T U s) (p : String) : TokOk T U (s.tokenOfVar p) := by
   unfold Sys.tokenOfVar
   cases hg : assocGet s.spans p with
   | none => intro it hit; cases hit
@@ -20,13 +64,13 @@ theorem tokOk_tokenOfVar {T : List Nat} {s : Sys} (h : Prov T s) (p : String) : 
     | none => intro it hit; cases hit
     | some sp => exact tokOk_issue (h.getSpan hg sp rfl)
 
-theorem tokOk_flatMap {T : List Nat} {s : Sys} (h : Prov T s) (ps : List String) : TokOk T (ps.flatMap s.tokenOfVar) := by
-  intro it hit hs
+theorem tokOk_flatMap {T U : List Nat} {s : Sys} (h : Prov T U s) (ps : List String) : TokOk T U (ps.flatMap s.tokenOfVar) := by
+  intro it hit
   simp only [List.mem_flatMap] at hit
   obtain ⟨p, _, hp⟩ := hit
-  exact tokOk_tokenOfVar h p it hp hs
+  exact tokOk_tokenOfVar h p it hp
 
-theorem Prov.init (T : List Nat) : Prov T Sys.init :=
+theorem Prov.init (T U : List Nat) : Prov T U Sys.init :=
   ⟨by simp [Sys.init], by simp [Sys.init],
    by
      intro t
@@ -34,165 +78,209 @@ theorem Prov.init (T : List Nat) : Prov T Sys.init :=
      exact ⟨by simp [StackOk, Stack.withCapacity], by simp⟩,
    by simp [Sys.init, RingsOk], by simp [Sys.init], by simp [Sys.init, CollOk]⟩
 
+theorem Sys.adPoll_quiet (s : Sys) (t : Nat) (a call : String) : (s.adPoll t a call).2.quiet = true := by
+  unfold Sys.adPoll
+  split
+  · rfl
+  · dsimp only
+    split
+    · split <;> rfl
+    · split
+      · split <;> rfl
+      · rfl
+
+theorem Sys.adEnd_quiet (s : Sys) (t : Nat) (a result : String) : (s.adEnd t a result).2.quiet = true := by
+  unfold Sys.adEnd
+  split
+  · split
+    · rfl
+    · dsimp only
+      split
+      · split <;> rfl
+      · rfl
+  · rfl
+
+theorem Sys.closeUnder_quiet (s : Sys) (t : Nat) : (s.closeUnder t).2.quiet = true := by
+  unfold Sys.closeUnder
+  dsimp only
+  split
+  · rfl
+  · split
+    · rfl
+    · split <;> rfl
+
+theorem Sys.collectUnder_quiet (s : Sys) (t : Nat) (x : String) : (s.collectUnder t x).2.quiet = true := by
+  unfold Sys.collectUnder
+  dsimp only
+  split
+  · split <;> rfl
+  · rfl
+
 /-- **one operation**: provenance is preserved, and a report carries only trace ids of `T` -/
-theorem exec_prov (T : List Nat) (s : Sys) (t : Nat) (op : Op) (hsub : ∀ x ∈ opTraces op, x ∈ T) (h : Prov T s) :
-    Prov T (exec s t op).1 ∧ ∀ rs, (exec s t op).2 = .report (some rs) → RecsOk T rs := by
-  have noRep : ∀ {S : Sys} {o : Obs}, Prov T S → (∀ rs, o ≠ .report (some rs)) →
-      Prov T (S, o).1 ∧ ∀ rs, (S, o).2 = .report (some rs) → RecsOk T rs :=
-    fun hp hne => ⟨hp, fun rs e => absurd e (hne rs)⟩
+theorem exec_prov (T U : List Nat) (s : Sys) (t : Nat) (op : Op) (hsub : ∀ x ∈ opTraces op, x ∈ T)
+    (hsubU : ∀ x ∈ opTracesU op, x ∈ U) (h : Prov T U s) :
+    Prov T U (exec s t op).1 ∧ ObsOk T U (exec s t op).2 := by
+  have noRep : ∀ {S : Sys} {o : Obs}, Prov T U S → o.quiet = true → Prov T U (S, o).1 ∧ ObsOk T U (S, o).2 :=
+    fun hp hq => ⟨hp, obsOk_of_quiet hq⟩
   cases op with
   | setReporter c =>
     simp only [exec]
-    exact noRep ⟨h.spans, h.adapters, h.threads, h.rxs, h.cyc, h.coll⟩ (by intro rs e; cases e)
+    exact noRep ⟨h.spans, h.adapters, h.threads, h.rxs, h.cyc, h.coll⟩ rfl
   | spawn =>
     simp only [exec]
-    exact noRep ((h.setTh t _ (h.threads t)).putCtr t _) (by intro rs e; cases e)
+    exact noRep ((h.setTh t _ (h.threads t)).putCtr t _) rfl
   | touch =>
     simp only [exec]
     cases hr : s.register t with
-    | none => exact noRep h (by intro rs e; cases e)
-    | some s' => exact noRep (h.register t hr) (by intro rs e; cases e)
+    | none => exact noRep h rfl
+    | some s' => exact noRep (h.register t hr) rfl
   | root v n tr sp b =>
     simp only [exec]
     split
-    · exact noRep (h.setSpan v none (svOk_none T)) (by intro rs e; cases e)
+    · exact noRep (h.setSpan v none (svOk_none T U)) rfl
     · split
-      · exact noRep h (by intro rs e; cases e)
-      · have htok : ∀ cid, TokOk T [⟨tr, sp, cid, true, b⟩] := by
-          intro cid it hit hs
+      · exact noRep h rfl
+      · have htok : ∀ cid, TokOk T U [⟨tr, sp, cid, true, b⟩] := by
+          intro cid it hit
           simp only [List.mem_singleton] at hit
           subst hit
-          simp only at hs
-          subst hs
-          exact hsub tr (by simp [opTraces])
+          constructor
+          · intro hs
+            simp only at hs
+            subst hs
+            exact hsub tr (by simp [opTraces])
+          · intro hs
+            simp only at hs
+            subst hs
+            exact hsubU tr (by simp [opTracesU])
         split
         · dsimp only
-          exact noRep (((h.withNextCollect _).sendCmd t (.start s.nextCollect) false trivial).newSpan t v n _ _ (htok _)) (by intro rs e; cases e)
+          exact noRep (((h.withNextCollect _).sendCmd t (.start s.nextCollect) false trivial).newSpan t v n _ _ (htok _)) rfl
         · dsimp only
-          exact noRep (h.newSpan t v n _ _ (htok _)) (by intro rs e; cases e)
+          exact noRep (h.newSpan t v n _ _ (htok _)) rfl
   | child1 v n p =>
     simp only [exec]
     cases hg : assocGet s.spans p with
-    | none => exact noRep h (by intro rs e; cases e)
+    | none => exact noRep h rfl
     | some sv =>
       cases sv with
-      | none => exact noRep (h.setSpan v none (svOk_none T)) (by intro rs e; cases e)
-      | some sp => exact noRep (h.newSpan t v n _ none (tokOk_issue (h.getSpan hg sp rfl))) (by intro rs e; cases e)
+      | none => exact noRep (h.setSpan v none (svOk_none T U)) rfl
+      | some sp => exact noRep (h.newSpan t v n _ none (tokOk_issue (h.getSpan hg sp rfl))) rfl
   | childN v n ps =>
     simp only [exec]
     split
-    · exact noRep h (by intro rs e; cases e)
-    · exact noRep (h.newSpan t v n _ none (tokOk_flatMap h ps)) (by intro rs e; cases e)
+    · exact noRep h rfl
+    · exact noRep (h.newSpan t v n _ none (tokOk_flatMap h ps)) rfl
   | childLocal v n =>
     simp only [exec]
     cases hc : (s.th t).stack.currentToken with
-    | some tok => exact noRep (h.newSpan t v n tok none ((h.threads t).1.currentToken hc)) (by intro rs e; cases e)
-    | none => exact noRep (h.setSpan v none (svOk_none T)) (by intro rs e; cases e)
+    | some tok => exact noRep (h.newSpan t v n tok none ((h.threads t).1.currentToken hc)) rfl
+    | none => exact noRep (h.setSpan v none (svOk_none T U)) rfl
   | withProps v cl =>
     simp only [exec]
     cases hg : assocGet s.spans v with
-    | none => exact noRep h (by intro rs e; cases e)
+    | none => exact noRep h rfl
     | some sv =>
       cases sv with
-      | none => exact noRep h (by intro rs e; cases e)
+      | none => exact noRep h rfl
       | some sp =>
         dsimp only
-        refine noRep ((h.runClosure t cl).setSpan v _ ?_) (by intro rs e; cases e)
+        refine noRep ((h.runClosure t cl).setSpan v _ ?_) rfl
         intro sp' e
         cases e
         exact h.getSpan hg sp rfl
   | addProps v cl =>
     simp only [exec]
     cases hg : assocGet s.spans v with
-    | none => exact noRep h (by intro rs e; cases e)
+    | none => exact noRep h rfl
     | some sv =>
       cases sv with
-      | none => exact noRep h (by intro rs e; cases e)
+      | none => exact noRep h rfl
       | some sp =>
         dsimp only
         exact noRep (((h.putCtr t _).runClosure t cl).submitSpans t _ _ (tokOk_issue (h.getSpan hg sp rfl)))
-          (by intro rs e; cases e)
+          rfl
   | addEvent v n p =>
     simp only [exec]
     cases hg : assocGet s.spans v with
-    | none => exact noRep h (by intro rs e; cases e)
+    | none => exact noRep h rfl
     | some sv =>
       cases sv with
-      | none => exact noRep h (by intro rs e; cases e)
+      | none => exact noRep h rfl
       | some sp =>
         dsimp only
-        exact noRep ((h.putCtr t _).submitSpans t _ _ (tokOk_issue (h.getSpan hg sp rfl))) (by intro rs e; cases e)
+        exact noRep ((h.putCtr t _).submitSpans t _ _ (tokOk_issue (h.getSpan hg sp rfl))) rfl
   | pushChild v x =>
     simp only [exec]
     cases hg : assocGet s.spans v with
-    | none => exact noRep h (by intro rs e; cases e)
+    | none => exact noRep h rfl
     | some sv =>
       cases hx : assocGet s.lspans x with
-      | none => exact noRep h (by intro rs e; cases e)
+      | none => exact noRep h rfl
       | some ls =>
         dsimp only
         cases sv with
-        | none => exact noRep h (by intro rs e; cases e)
+        | none => exact noRep h rfl
         | some sp =>
           dsimp only
           split
-          · exact noRep h (by intro rs e; cases e)
-          · exact noRep (h.submitSpans t _ _ (tokOk_issue (h.getSpan hg sp rfl))) (by intro rs e; cases e)
+          · exact noRep h rfl
+          · exact noRep (h.submitSpans t _ _ (tokOk_issue (h.getSpan hg sp rfl))) rfl
   | elapsed v =>
     simp only [exec]
-    split <;> exact noRep h (by intro rs e; cases e)
+    split <;> exact noRep h rfl
   | cancel v =>
     simp only [exec]
     split
-    · exact noRep h (by intro rs e; cases e)
-    · exact noRep h (by intro rs e; cases e)
+    · exact noRep h rfl
+    · exact noRep h rfl
     · split
-      · exact noRep (h.sendCmd t _ true trivial) (by intro rs e; cases e)
-      · exact noRep h (by intro rs e; cases e)
+      · exact noRep (h.sendCmd t _ true trivial) rfl
+      · exact noRep h rfl
   | drop v =>
     simp only [exec]
     cases hg : assocGet s.spans v with
-    | none => exact noRep h (by intro rs e; cases e)
-    | some sv => exact noRep ((h.delSpan v).dropSpanVal t sv (h.getSpan hg)) (by intro rs e; cases e)
+    | none => exact noRep h rfl
+    | some sv => exact noRep ((h.delSpan v).dropSpanVal t sv (h.getSpan hg)) rfl
   | scope v =>
     simp only [exec]
     cases hg : assocGet s.spans v with
-    | none => exact noRep h (by intro rs e; cases e)
+    | none => exact noRep h rfl
     | some sv =>
       cases sv with
-      | none => exact noRep (h.setGuards t _) (by intro rs e; cases e)
+      | none => exact noRep (h.setGuards t _) rfl
       | some sp =>
         dsimp only
         cases hr : (s.th t).stack.registerLine (some (issueToken sp)) with
-        | none => exact noRep (h.setGuards t _) (by intro rs e; cases e)
+        | none => exact noRep (h.setGuards t _) rfl
         | some res =>
           obtain ⟨st1, ep⟩ := res
           dsimp only
-          refine noRep (h.setSG t st1 _ ((h.threads t).1.registerLine ?_ hr)) (by intro rs e; cases e)
+          refine noRep (h.setSG t st1 _ ((h.threads t).1.registerLine ?_ hr)) rfl
           intro tk htk
           cases htk
           exact tokOk_issue (h.getSpan hg sp rfl)
   | localEnter n =>
     simp only [exec]
     cases hs : (s.th t).stack.enterSpan (s.ctr t) n with
-    | none => exact noRep (h.setGuards t _) (by intro rs e; cases e)
+    | none => exact noRep (h.setGuards t _) rfl
     | some res =>
       obtain ⟨st1, hd, c1⟩ := res
       dsimp only
-      exact noRep ((h.setSG t st1 _ ((h.threads t).1.enterSpan hs)).putCtr t _) (by intro rs e; cases e)
+      exact noRep ((h.setSG t st1 _ ((h.threads t).1.enterSpan hs)).putCtr t _) rfl
   | collectorStart =>
     simp only [exec]
     cases hr : (s.th t).stack.registerLine none with
-    | none => exact noRep (h.setGuards t _) (by intro rs e; cases e)
+    | none => exact noRep (h.setGuards t _) rfl
     | some res =>
       obtain ⟨st1, ep⟩ := res
       dsimp only
-      exact noRep (h.setSG t st1 _ ((h.threads t).1.registerLine (fun tk e => by cases e) hr)) (by intro rs e; cases e)
+      exact noRep (h.setSG t st1 _ ((h.threads t).1.registerLine (fun tk e => by cases e) hr)) rfl
   | close =>
     simp only [exec]
     cases hg : (s.th t).guards with
-    | nil => exact noRep h (by intro rs e; cases e)
-    | cons g gs => exact noRep ((h.setGuards t gs).closeGuard t g) (by intro rs e; cases e)
+    | nil => exact noRep h rfl
+    | cons g gs => exact noRep ((h.setGuards t gs).closeGuard t g) rfl
   | collect x =>
     simp only [exec]
     split
@@ -202,157 +290,148 @@ theorem exec_prov (T : List Nat) (s : Sys) (t : Nat) (op : Op) (hsub : ∀ x ∈
       cases e with
       | none =>
         dsimp only
-        exact noRep ((h0.putCtr t _).withLspans _) (by intro rs e; cases e)
+        exact noRep ((h0.putCtr t _).withLspans _) rfl
       | some epoch =>
         dsimp only
         have h1 := h0.setStack t _ ((h0.threads t).1.unregister epoch).1
-        exact noRep ((h1.putCtr t _).withLspans _) (by intro rs e; cases e)
-    · exact noRep h (by intro rs e; cases e)
+        exact noRep ((h1.putCtr t _).withLspans _) rfl
+    · exact noRep h rfl
   | lWithProps cl =>
     simp only [exec]
     split
-    · exact noRep h (by intro rs e; cases e)
+    · exact noRep h rfl
     · rename_i hd _ _
       dsimp only
       have h1 := h.runClosure t cl
-      exact noRep (h1.setStack t _ ((h1.threads t).1.withProps hd cl.kvs)) (by intro rs e; cases e)
-    · exact noRep h (by intro rs e; cases e)
+      exact noRep (h1.setStack t _ ((h1.threads t).1.withProps hd cl.kvs)) rfl
+    · exact noRep h rfl
   | lAddProps cl =>
     simp only [exec]
     split
     · dsimp only
       have h1 := h.runClosure t cl
-      exact noRep ((h1.setStack t _ ((h1.threads t).1.addProps _ cl.kvs)).putCtr t _) (by intro rs e; cases e)
-    · exact noRep h (by intro rs e; cases e)
+      exact noRep ((h1.setStack t _ ((h1.threads t).1.addProps _ cl.kvs)).putCtr t _) rfl
+    · exact noRep h rfl
   | lAddEvent n p =>
     simp only [exec]
-    exact noRep ((h.setStack t _ ((h.threads t).1.addEvent (s.ctr t) n p)).putCtr t _) (by intro rs e; cases e)
+    exact noRep ((h.setStack t _ ((h.threads t).1.addEvent (s.ctr t) n p)).putCtr t _) rfl
   | ctxOf v =>
     simp only [exec]
-    split <;> exact noRep h (by intro rs e; cases e)
+    cases hg : assocGet s.spans v with
+    | none => exact noRep h rfl
+    | some sv =>
+      cases sv with
+      | none => exact noRep h rfl
+      | some sp => exact ⟨h, obsOk_ctxOfToken (tokOk_issue (h.getSpan hg sp rfl))⟩
   | ctxLocal =>
     simp only [exec]
-    split <;> exact noRep h (by intro rs e; cases e)
+    cases hc : (s.th t).stack.currentToken with
+    | none => exact noRep h rfl
+    | some tok => exact ⟨h, obsOk_ctxOfToken ((h.threads t).1.currentToken hc)⟩
   | toRecords x tr sp =>
     simp only [exec]
-    split <;> exact noRep h (by intro rs e; cases e)
+    split <;> exact noRep h rfl
   | cycle =>
     simp only [exec]
     split
-    · exact noRep h (by intro rs e; cases e)
+    · exact noRep h rfl
     · have := h.cycle
-      exact ⟨this.1, fun rs e => this.2 rs (by simpa using e)⟩
+      exact ⟨this.1, obsOk_report this.2⟩
   | flush =>
     simp only [exec]
     split
-    · exact noRep h (by intro rs e; cases e)
+    · exact noRep h rfl
     · have := h.cycle
-      exact ⟨this.1, fun rs e => this.2 rs (by simpa using e)⟩
-  | cycBegin => simp only [exec]; exact h.cycBegin
-  | cycStep => simp only [exec]; exact h.cycStep
+      exact ⟨this.1, obsOk_report this.2⟩
+  | cycBegin =>
+    simp only [exec]
+    refine ⟨h.cycBegin.1, obsOk_of_quiet ?_⟩
+    unfold Sys.cycBegin
+    split
+    · rfl
+    · split <;> rfl
+  | cycStep =>
+    simp only [exec]
+    have hs := h.cycStep
+    refine ⟨hs.1, hs.2, ?_⟩
+    intro c e
+    exfalso
+    unfold Sys.cycStep at e
+    split at e
+    · cases e
+    · split at e
+      · cases e
+      · cases e
+      · cases e
+      · split at e
+        · split at e <;> cases e
+        · split at e
+          · split at e <;> cases e
+          · cases e
   | stats =>
     simp only [exec]
-    split <;> exact noRep h (by intro rs e; cases e)
-  | exit => simp only [exec]; exact noRep (h.exitThread t) (by intro rs e; cases e)
+    split <;> exact noRep h rfl
+  | exit => simp only [exec]; exact noRep (h.exitThread t) rfl
   | spam n =>
     simp only [exec]
     split
-    · exact noRep h (by intro rs e; cases e)
-    · exact noRep (Prov.spam n h t) (by intro rs e; cases e)
+    · exact noRep h rfl
+    · exact noRep (Prov.spam n h t (fun _ => hsubU 0 (by simp [opTracesU]))) rfl
   | adNew a kind arg =>
     simp only [exec]
     cases kind with
-    | enterOnPoll => exact noRep (h.setAdapter a _ (fun sv e => by cases e)) (by intro rs e; cases e)
+    | enterOnPoll => exact noRep (h.setAdapter a _ (fun sv e => by cases e)) rfl
     | inSpan | stream | sink =>
       all_goals
         dsimp only
         cases hg : assocGet s.spans arg with
-        | none => exact noRep h (by intro rs e; cases e)
+        | none => exact noRep h rfl
         | some sv =>
-          refine noRep ?_ (by intro rs e; cases e)
+          refine noRep ?_ rfl
           apply Prov.setAdapter (h.delSpan arg)
           intro sv' e
           cases e
           exact h.getSpan hg
-  | adPoll a call =>
-    simp only [exec]
-    refine ⟨h.adPoll t a call, ?_⟩
-    intro rs e
-    exfalso
-    unfold Sys.adPoll at e
-    split at e
-    · cases e
-    · dsimp only at e
-      split at e
-      · split at e <;> cases e
-      · split at e
-        · split at e <;> cases e
-        · cases e
-  | adEnd a result =>
-    simp only [exec]
-    refine ⟨h.adEnd t a result, ?_⟩
-    intro rs e
-    exfalso
-    unfold Sys.adEnd at e
-    split at e
-    · split at e
-      · cases e
-      · dsimp only at e
-        split at e
-        · split at e <;> cases e
-        · cases e
-    · cases e
+  | adPoll a call => simp only [exec]; exact ⟨h.adPoll t a call, obsOk_of_quiet (Sys.adPoll_quiet s t a call)⟩
+  | adEnd a result => simp only [exec]; exact ⟨h.adEnd t a result, obsOk_of_quiet (Sys.adEnd_quiet s t a result)⟩
   | adDrop a =>
     simp only [exec]
     cases hg : assocGet s.adapters a with
-    | none => exact noRep h (by intro rs e; cases e)
+    | none => exact noRep h rfl
     | some ad =>
       dsimp only
       cases hsp : ad.span with
-      | none => exact noRep (h.delAdapter a) (by intro rs e; cases e)
-      | some sv => exact noRep ((h.delAdapter a).dropSpanVal t sv (h.getAdapter hg sv hsp)) (by intro rs e; cases e)
-  | closeUnder =>
-    simp only [exec]
-    refine ⟨h.closeUnder t, ?_⟩
-    intro rs e
-    exfalso
-    unfold Sys.closeUnder at e
-    dsimp only at e
-    split at e
-    · cases e
-    · split at e
-      · cases e
-      · split at e <;> cases e
-  | collectUnder x =>
-    simp only [exec]
-    refine ⟨h.collectUnder t x, ?_⟩
-    intro rs e
-    exfalso
-    unfold Sys.collectUnder at e
-    dsimp only at e
-    split at e
-    · split at e <;> cases e
-    · cases e
-
+      | none => exact noRep (h.delAdapter a) rfl
+      | some sv => exact noRep ((h.delAdapter a).dropSpanVal t sv (h.getAdapter hg sv hsp)) rfl
+  | closeUnder => simp only [exec]; exact ⟨h.closeUnder t, obsOk_of_quiet (Sys.closeUnder_quiet s t)⟩
+  | collectUnder x => simp only [exec]; exact ⟨h.collectUnder t x, obsOk_of_quiet (Sys.collectUnder_quiet s t x)⟩
   | unwind =>
     simp only [exec]
-    exact noRep ((Prov.foldl_closeGuard (s.th t).guards h t).setGuards t []) (by intro rs e; cases e)
+    exact noRep ((Prov.foldl_closeGuard (s.th t).guards h t).setGuards t []) rfl
 
 /-- the trace ids supplied to the sampled `root` operations of a program -/
 def sampledRootTraces (p : Program) : List Nat := p.flatMap fun x => opTraces x.2
 
-/-- **every report of every program carries only trace ids of sampled roots** -/
-theorem run_prov (T : List Nat) (p : Program) (s : Sys) (hp : ∀ x ∈ p, ∀ tr ∈ opTraces x.2, tr ∈ T) (h : Prov T s) :
-    ∀ o ∈ (run s p).2, ∀ rs, o = .report (some rs) → RecsOk T rs := by
+/-- the trace ids supplied to unsampled `root` operations (and 0 for `spam`) -/
+def unsampledRootTraces (p : Program) : List Nat := p.flatMap fun x => opTracesU x.2
+
+/-- **every observation of every program** is `ObsOk` -/
+theorem run_prov (T U : List Nat) (p : Program) (s : Sys) (hp : ∀ x ∈ p, ∀ tr ∈ opTraces x.2, tr ∈ T)
+    (hpU : ∀ x ∈ p, ∀ tr ∈ opTracesU x.2, tr ∈ U) (h : Prov T U s) :
+    ∀ o ∈ (run s p).2, ObsOk T U o := by
   induction p generalizing s with
   | nil => intro o ho; cases ho
   | cons x rest ih =>
     obtain ⟨t, op⟩ := x
-    have he := exec_prov T s t op (hp (t, op) (by simp)) h
-    intro o ho rs hrs
+    have he := exec_prov T U s t op (hp (t, op) (by simp)) (hpU (t, op) (by simp)) h
+    intro o ho
     simp only [run, List.mem_cons] at ho
     rcases ho with rfl | ho
-    · exact he.2 rs hrs
-    · exact ih (exec s t op).1 (fun y hy => hp y (by simp [hy])) he.1 o ho rs hrs
+    · exact he.2
+    · exact ih (exec s t op).1 (fun y hy => hp y (by simp [hy])) (fun y hy => hpU y (by simp [hy])) he.1 o ho
+
+theorem run_prov_init (p : Program) : ∀ o ∈ (run Sys.init p).2, ObsOk (sampledRootTraces p) (unsampledRootTraces p) o :=
+  run_prov _ _ p Sys.init (fun x hx tr htr => List.mem_flatMap.mpr ⟨x, hx, htr⟩)
+    (fun x hx tr htr => List.mem_flatMap.mpr ⟨x, hx, htr⟩) (Prov.init _ _)
 
 end Fastrace
